@@ -145,7 +145,7 @@ PROPS = {
     "C02": _hist("Lean 4 theorems about the manifest rule: a non-phony step is judged clean only if no named file is missing, a completion record exists and its manifest equals the manifest of the files as they are now; the check is read-only; record_finished appends exactly one record carrying the manifest of the re-stat()ed post-command state, or nothing when a file is missing; the manifest names exactly dirtying inputs, discovered deps, outputs (with mtimes), command line and rspfile. The composed world model (loader + log + scheduler + dirtiness + command semantics) reproduces the real n2 on every generated history (traces, results, whole tree), and the monitors cleanEq (contents of the requested closure = from-scratch build, computed by the Lean model) and logAgrees are evaluated on the implementation's tree and log.",
                  ["C02"], ["cleanEq", "logAgrees"]),
     "C03": _hist("Lean 4 theorems: a step is judged dirty only if a named file is missing, or it has no record, or the recorded manifest differs (and is clean when none of these holds); phony steps never run; order-only/validation inputs do not enter the manifest; the manifest depends on the stat cache only through the mtimes of the files it names (an upstream re-run that keeps timestamps dirties nothing); -t restat touches no file. Tied by exact agreement of the world model with the real n2 on histories; monitors runSetAsPredicted (per invocation the set of started commands equals the set the Lean model of the manifest rule predicts from the tree and the log), noopAfterSuccess (an invocation right after a successful one of the same targets starts nothing and reports 0 tasks, whenever every named file and reported dependency exists) and restatRunsNothing on the implementation's traces.",
-                 ["C03"], ["noopAfterSuccess", "restatRunsNothing", "runSetAsPredicted"]),
+                 ["C03"], ["noopAfterSuccess", "restatRunsNothing", "runSetAsPredicted", "settledAfterSuccess"]),
     "C09": _hist("Lean 4 theorems: record_finished REPLACES the discovered-dependency list by what it keeps of the new report — canonicalised, without duplicates, without declared dirtying inputs (order-only inputs may stay); a vanished discovered dependency yields 'dirty', never an error; discovered dependencies are not in the scheduler's ordering inputs. Tied by the world model (real depfiles written and parsed, real /showIncludes filtering) and the monitor logAgrees: the implementation's log bytes decode to exactly the model's records by name (outputs, dependency lists) with the same hash-equality pattern.",
                  ["C09"], ["logAgrees"]),
     "C17": _hist("Lean 4 theorems about run::build: a reload is requested exactly when the manifest phase succeeded having run n != 0 commands (then no failure is on record and nothing is pending); if the phase does not succeed, build returns there (never success, never reload); after a reload the rest is a function of the reloaded graph and a fresh Work only; with an up-to-date manifest phase 2 continues on the same scheduler state. Tied by histories with a generator step that copies build.ninja.in (edited by the history) — the model reloads its own manifest text; monitors regenFirst (commands of the first Work lie in the manifest's producer cone when a reload follows) and reloadIffRan on the implementation's traces.",
@@ -347,3 +347,15 @@ PROPS["C12"]["claim"] += (" WHOLE LOADER (load_total, Lemmas/LoadTotal): for eve
     "panic, unknown file id in add_build, unterminated scanner buffer, out-of-bounds read, statement/parser loop out of fuel) are unreachable. "
     "Proof: the parser totality theorem per round + strict progress of every non-EOF item as the statement loop's measure, the graph invariant "
     "for id ranges, canon_spec for paths, induction on nesting depth.")
+
+PROPS["C03"]["claim"] += (" WHOLE INVOCATIONS (repeated_build_does_nothing, Lemmas/WorkClean + SchedClean + RunClean + WorldClean): for EVERY "
+    "manifest, tree, log, argument vector (targets, -j, -k, -t restat) and every scheduling behaviour of the environment, if the manifest "
+    "loads and every non-phony step in the closure the invocation may consider is up to date (every dirtying input, discovered dependency "
+    "and output exists; the step's latest attributed record is the manifest of the files as they are; a generated discovered dependency is "
+    "produced by an ordering ancestor) then load::read + run::build leave tree, clock and log exactly as they were, start and finish no "
+    "command, request no reload, and a successful result reports 0 tasks ('no work to do'). Proof: check_build_dirty on an up-to-date step "
+    "answers clean and only grows a truthful stat cache (checkDirty_upToDate); a run whose checks answer clean — each check relying on all "
+    "transitive ordering ancestors being Done, which the scheduler invariant provides — starts nothing (runLoop_quiet2), through both phases "
+    "and target resolution, restricted to the requested closure (build_only_requested). That the state a SUCCESSFUL build leaves is of this "
+    "kind is so far checked, not proved: monitor settledAfterSuccess decides the same predicate (World.settled) on the implementation's tree "
+    "+ the log (tied by logAgrees) after every successful invocation whose declared files all exist; evidence counts how often it applied.")
